@@ -56,7 +56,7 @@ func (m c12mapper) MapType(mm *Measurement, field string) DataType {
 var c12rank = map[DataType]int{Float: 9, Integer: 8, Unsigned: 7, String: 6, Boolean: 5, Time: 4, Duration: 3, Tag: 2, AnyField: 1, Unknown: 0}
 
 func TestZZBoundedC12(t *testing.T) {
-	fmt.Println("BOUNDED-BOUND: 4 schemas x 12 statements x 25 repetitions; oracle: sorted matching columns with the highest-precedence type, tags out of calls and out of grouped fields, identical text on every repetition")
+	fmt.Println("BOUNDED-BOUND: 4 schemas x 14 statements x 25 repetitions; oracle: sorted matching columns with the highest-precedence type, tags out of calls and out of grouped fields, identical text on every repetition")
 	type ms = struct {
 		fields map[string]DataType
 		tags   []string
@@ -72,6 +72,7 @@ func TestZZBoundedC12(t *testing.T) {
 		"SELECT v FROM %s GROUP BY *", "SELECT v FROM %s GROUP BY /t|host/", "SELECT /v|w|host/ FROM %s",
 		"SELECT mean(*) FROM %s", "SELECT count(*), mean(*) FROM %s", "SELECT max(/v|w/) FROM %s",
 		"SELECT v, w FROM %s", "SELECT * FROM (SELECT v, w FROM %s)",
+		"SELECT cumulative_sum(derivative(mean(*))) FROM %s GROUP BY time(1m)", "SELECT derivative(mean(/v|w/)) FROM %s GROUP BY time(1m)",
 	}
 	total, ok := 0, 0
 	fails := map[string]int{}
@@ -170,6 +171,18 @@ func TestZZBoundedC12(t *testing.T) {
 				}
 				if qi == 8 && strings.Contains(outs[0], "mean(s::string)") {
 					fail("type-filter-leaks-between-calls", fmt.Sprintf("schema %d: %q -> %q", si, text, outs[0]))
+				}
+			}
+			// a wildcard or regex that stands as (possibly nested) first call argument is always replaced or removed
+			if qi >= 12 && (strings.Contains(outs[0], "(*)") || strings.Contains(outs[0], "(/")) {
+				numeric := false
+				for _, v := range fieldT {
+					if v == Float || v == Integer || v == Unsigned {
+						numeric = true
+					}
+				}
+				if numeric {
+					fail("nested-call-wildcard-not-expanded", fmt.Sprintf("schema %d: %q -> %q", si, text, outs[0]))
 				}
 			}
 			if want != "" && len(cols) > 0 && outs[0] != want {
